@@ -162,6 +162,18 @@ pub fn run(out_path: &str, tier: &str) {
 								let c = char::from_u32(s["c"].as_u64().unwrap() as u32).unwrap();
 								place_list.push((ty.to_string(), c.to_string()));
 							}
+							// the small alphabets are placed exhaustively, one character at a time
+							if run.acc && run.hi < 256 {
+								for v in run.lo..=run.hi {
+									place_list.push((ty.to_string(), char::from_u32(v).unwrap().to_string()));
+								}
+							}
+						}
+						// texts whose first / last characters are the ones normalisation code likes to touch
+						for t in ["example.com.", ".example.com", "a..", ".", " a ", "a ", " a", "A.B", "UPPER.example", "a.b.c.d.e.f", "trailing-", "-leading", "x=y?z"] {
+							if matches!(construct(ty, "try_from_str", t), Ok(Some(_))) {
+								place_list.push((ty.to_string(), t.to_string()));
+							}
 						}
 					}
 					out.event("StringRuns", &case, json!({"dom": "scalar", "type": ty, "ctor": ctor}), "Ok", "", json!({"runs": runs_json(&runs)}));
